@@ -425,7 +425,7 @@ func (e *Engine) sampleWitness(st *State) {
 		}
 		fmt.Printf("WITNESS-PC %d inputs: %s\n", len(recs), strings.Join(cs, "\n     & "))
 	}
-	e.Witnesses = append(e.Witnesses, Witness{Inputs: in, Multi: st.Multi, Sched: e.schedList(st)})
+	e.Witnesses = append(e.Witnesses, Witness{Inputs: in, Multi: st.Multi, EngineOnly: st.EngineOnly, Sched: e.schedList(st)})
 }
 
 // stateGraph records the explored transition graph (for livelock detection).
